@@ -262,6 +262,9 @@ def entails(a, b):
     """does atom a entail atom b?  (sound, incomplete)"""
     if a == b:
         return True
+    # a length is never negative: `len(x) <= 0` is `len(x) == 0`
+    if a[0] == "le" and a[2] == 0 and len(a[1]) == 1 and a[1][0][1] == 1 and str(a[1][0][0][0]).startswith("len("):
+        a = ("eq", a[1], 0)
     ka, kb = a[0], b[0]
     if ka == "const" or kb == "const":
         return kb == "const" and b[1] is True
